@@ -484,7 +484,8 @@ Inductive item :=
 | ICutBogus (c1 : Z) (body : list Z)                                         (* "<?" / "<!" / "</" body *)
 | ICutEnd (name ws : list Z)                                                 (* "</" name ws *)
 | ICutTag (name : list Z) (attrs : list attr)                                (* "<" name attributes *)
-| ICutRaw (name : list Z) (attrs : list attr) (ws content : list Z).         (* raw-text element without its end tag *)
+| ICutRaw (name : list Z) (attrs : list attr) (ws content : list Z)          (* raw-text element without its end tag *)
+| ICutForeign (h : Z) (name inner : list Z).                                 (* svg / math / xml without its end tag: "<" name inner *)
 
 Definition item_bytes (i : item) : list Z :=
   match i with
@@ -507,6 +508,7 @@ Definition item_bytes (i : item) : list Z :=
   | ICutEnd name ws => 60 :: 47 :: name ++ ws
   | ICutTag name attrs => 60 :: name ++ concat (map attr_bytes attrs)
   | ICutRaw name attrs ws content => (60 :: name ++ tag_rest attrs ws false) ++ content
+  | ICutForeign h name inner => 60 :: name ++ inner
   end.
 
 (* exactly one token per construct (a tag: one per part), lower-cased names, verbatim values *)
@@ -535,6 +537,7 @@ Definition item_obs (i : item) : list obs :=
   | ICutEnd name ws => [mkObs EndTagT (60 :: 47 :: map lower name ++ ws) (map lower name) []]
   | ICutTag name attrs => mkObs StartTagT (60 :: map lower name) (map lower name) [] :: map attr_obs attrs
   | ICutRaw name attrs ws content => tag_obs name attrs false ++ [mkObs TextT content content []]
+  | ICutForeign h name inner => [mkObs (foreign_ty h) (60 :: map lower name ++ inner) (map lower name) []]
   end.
 
 Definition is_text (i : item) : bool := match i with IText _ | ITextLt _ _ => true | _ => false end.
@@ -542,7 +545,7 @@ Definition is_text (i : item) : bool := match i with IText _ | ITextLt _ _ => tr
 Definition is_plain (i : item) : bool :=
   match i with
   | IPlain _ _ _ _ | ITextLt _ _ | ICutComment _ | ICutCdata _ | ICutDoctype _ _ _ _ _ _ _ _ | ICutBogus _ _ | ICutEnd _ _
-  | ICutTag _ _ | ICutRaw _ _ _ _ => true
+  | ICutTag _ _ | ICutRaw _ _ _ _ | ICutForeign _ _ _ => true
   | _ => false
   end.
 
@@ -596,6 +599,11 @@ Definition wf_item (i : item) : Prop :=
       (exists h, to_hash (map lower name) = Ok h /\ is_raw_hash h = true /\ is_xml_hash h = false /\ h <> html_hash_Plaintext /\
                  raw_len h content = len content) /\        (* no end tag of the element in the content (Script.raw_len) *)
       all_ws ws /\ wf_attrs attrs (ws ++ closer false) /\ content <> []
+  | ICutForeign h name inner =>
+      (exists c nm, name = c :: nm /\ is_letter c = true) /\ Forall namechar name /\
+      to_hash (map lower name) = Ok h /\ is_xml_hash h = true /\
+      (inner = [] \/ exists c r, inner = c :: r /\ (is_ws c = true \/ c = 62)) /\
+      xml_cut_ok (length inner) h true 0 0 inner = true      (* every step of shiftXML continues up to the end of input (Wf.xml_step) *)
   end.
 
 (* a document: well-formed items, no two texts in a row, plaintext only as the last item *)
@@ -700,7 +708,7 @@ Qed.
 
 Lemma nontext_tag_start i rest : wf_item i -> is_text i = false -> tag_start (item_bytes i ++ rest).
 Proof.
-  intros Hwf Ht. destruct i as [t|b|b|x0 x1 x2 x3 x4 x5 x6 after|name attrs ws void|name ws|name attrs ws content ename ews|h name inner ename ews|c1 body|name attrs ws content|ct ctl|cb|cdb|y0 y1 y2 y3 y4 y5 y6 cafter|cc1 cbody|cname cws|tname tattrs|rname rattrs rws rcontent]; cbn [is_text] in Ht; try discriminate;
+  intros Hwf Ht. destruct i as [t|b|b|x0 x1 x2 x3 x4 x5 x6 after|name attrs ws void|name ws|name attrs ws content ename ews|h name inner ename ews|c1 body|name attrs ws content|ct ctl|cb|cdb|y0 y1 y2 y3 y4 y5 y6 cafter|cc1 cbody|cname cws|tname tattrs|rname rattrs rws rcontent|fh fname finner]; cbn [is_text] in Ht; try discriminate;
     cbn [item_bytes app wf_item] in *.
   - eexists _, _. split; [reflexivity|tauto].
   - eexists _, _. split; [reflexivity|tauto].
@@ -722,6 +730,7 @@ Proof.
     right; right; right. split; [reflexivity|]. cbn [app]. eexists _, _. split; [reflexivity|]. inversion Hb; assumption.
   - destruct Hwf as ((c & nm & -> & Hl) & _). cbn [app]. eexists _, _. split; [reflexivity|].
     right; right; right. split; [reflexivity|]. eexists _, _. split; [reflexivity|]. intros ->. discriminate.
+  - destruct Hwf as ((c & nm & -> & Hl) & _). cbn [app]. eexists _, _. split; [reflexivity|tauto].
   - destruct Hwf as ((c & nm & -> & Hl) & _). cbn [app]. eexists _, _. split; [reflexivity|tauto].
   - destruct Hwf as ((c & nm & -> & Hl) & _). cbn [app]. eexists _, _. split; [reflexivity|tauto].
 Qed.
@@ -753,7 +762,7 @@ Qed.
 
 Lemma item_obs_noerr i : Forall (fun o => o_ty o <> ErrorT) (item_obs i).
 Proof.
-  destruct i as [t|b|b|x0 x1 x2 x3 x4 x5 x6 after|name attrs ws void|name ws|name attrs ws content ename ews|h name inner ename ews|c1 body|name attrs ws content|ct ctl|cb|cdb|y0 y1 y2 y3 y4 y5 y6 cafter|cc1 cbody|cname cws|tname tattrs|rname rattrs rws rcontent];
+  destruct i as [t|b|b|x0 x1 x2 x3 x4 x5 x6 after|name attrs ws void|name ws|name attrs ws content ename ews|h name inner ename ews|c1 body|name attrs ws content|ct ctl|cb|cdb|y0 y1 y2 y3 y4 y5 y6 cafter|cc1 cbody|cname cws|tname tattrs|rname rattrs rws rcontent|fh fname finner];
     cbn [item_obs]; unfold tag_obs; repeat (constructor || apply Forall_app; try split); cbn [o_ty]; try discriminate.
   - rewrite Forall_map. apply Forall_forall. intros [? ?|? ? ? ? ?] _; discriminate.
   - destruct void; discriminate.
@@ -762,6 +771,7 @@ Proof.
   - rewrite Forall_map. apply Forall_forall. intros [? ?|? ? ? ? ?] _; discriminate.
   - rewrite Forall_map. apply Forall_forall. intros [? ?|? ? ? ? ?] _; discriminate.
   - rewrite Forall_map. apply Forall_forall. intros [? ?|? ? ? ? ?] _; discriminate.
+  - unfold foreign_ty. destruct (fh =? html_hash_Svg); [discriminate|]. destruct (fh =? html_hash_Math); discriminate.
 Qed.
 
 (* a token that is the whole of X (nothing lower-cased) with Text() = X[a, a+n) *)
@@ -785,7 +795,7 @@ Lemma lexes_item i d l pre rest : at_input d l pre (item_bytes i ++ rest) -> int
 Proof.
   intros Hat Hit Hraw Hlerr Hwf Hnext Hlast. destruct (at_input_buflen _ _ _ _ Hat) as [Hbl Hpre0].
   pose proof (len_nonneg rest) as Hrest0.
-  destruct i as [t|b|b|x0 x1 x2 x3 x4 x5 x6 after|name attrs ws void|name ws|name attrs ws content ename ews|h name inner ename ews|c1 body|name attrs ws content|ct ctl|cb|cdb|y0 y1 y2 y3 y4 y5 y6 cafter|cc1 cbody|cname cws|tname tattrs|rname rattrs rws rcontent]; cbn [item_bytes item_obs wf_item is_text is_plain] in *.
+  destruct i as [t|b|b|x0 x1 x2 x3 x4 x5 x6 after|name attrs ws void|name ws|name attrs ws content ename ews|h name inner ename ews|c1 body|name attrs ws content|ct ctl|cb|cdb|y0 y1 y2 y3 y4 y5 y6 cafter|cc1 cbody|cname cws|tname tattrs|rname rattrs rws rcontent|fh fname finner]; cbn [item_bytes item_obs wf_item is_text is_plain] in *.
   - (* text *)
     destruct Hwf as [Hne Ht].
     destruct (next_text d l pre t rest Hat Hit Hraw Hne Ht (Hnext eq_refl)) as (l' & Hn & Htx & Hb & Hi' & Hr' & _).
@@ -1099,6 +1109,30 @@ Proof.
       rewrite slice_first. reflexivity. }
     destruct Hraw2 as (l2 & Hl2 & Hi2 & Hr2).
     exists l2. split; [|tauto]. eapply lexes_app; [exact Hl1|exact Hl2].
+  - (* svg / math / xml cut by the end of input *)
+    destruct Hwf as (Hn1 & Hn2 & Hh & Hxml & Hin1 & Hin2). rewrite (Hlast eq_refl) in *.
+    assert (Hat0 : at_input d l pre (60 :: fname ++ finner)) by (rewrite app_nil_r in Hat; exact Hat).
+    destruct (next_foreign_cut d l pre fname finner fh Hat0 Hit Hraw Hlerr Hn1 Hn2 Hh Hxml Hin1 Hin2) as (l' & Hn & Htx & Hb & Hi' & Hr' & _).
+    exists l'. split; [|tauto]. pose proof (len_nonneg fname). pose proof (len_nonneg finner).
+    assert (Hl : len (60 :: fname ++ finner) = 1 + len fname + len finner) by (rewrite !len_cons, len_app; lia).
+    eapply lexes_one; [exact Hat|exact Hn|cbn [so sn]; lia|].
+    cbn [observe]. rewrite Htx, Hb. cbn [opt_bytes].
+    replace (foreign_ty fh =? AttributeT) with false by (unfold foreign_ty; destruct (fh =? html_hash_Svg); [reflexivity|]; destruct (fh =? html_hash_Math); reflexivity).
+    destruct (at_input_buflen _ _ _ _ Hat0) as [Hbl0 _]. rewrite Hl in Hbl0.
+    assert (Hname : view_bytes (lbuf (lz l)) (mkSl (len pre + 1) (len fname)) = fname).
+    { rewrite (at_input_view d l pre _ 1 (len fname) Hat0) by lia. pose proof (slice_mid [60] fname finner) as E. exact E. }
+    f_equal.
+    + replace (mkSl (len pre + 1) (len fname)) with (mkSl (len pre + 1) (1 + len fname - 1)) by (f_equal; lia).
+      rewrite view_lower_middle by lia. replace (1 + len fname - 1) with (len fname) by lia. rewrite Hname.
+      rewrite (at_input_view0 d l pre _ 1 Hat0) by lia.
+      rewrite (at_input_view d l pre _ (1 + len fname) (1 + len fname + len finner - (1 + len fname)) Hat0) by lia.
+      change (slice (60 :: fname ++ finner) 0 1) with [60].
+      replace (slice (60 :: fname ++ finner) (1 + len fname) (1 + len fname + (1 + len fname + len finner - (1 + len fname)))) with finner; [reflexivity|].
+      symmetry. replace (1 + len fname + (1 + len fname + len finner - (1 + len fname))) with (1 + len fname + len finner) by lia.
+      pose proof (slice_mid ([60] ++ fname) finner []) as E. rewrite app_nil_r in E.
+      replace (len ([60] ++ fname)) with (1 + len fname) in E by (rewrite len_app; reflexivity).
+      rewrite <- app_assoc in E. exact E.
+    + rewrite view_bytes_lower_view by (cbn [so sn]; lia). rewrite Hname. reflexivity.
 Qed.
 
 (* ---- documents ------------------------------------------------------------------------------------------------------------- *)
@@ -1282,4 +1316,20 @@ Proof.
     + split; [discriminate|]. split; [repeat constructor|]. split; [discriminate|]. split; [repeat constructor; vm_compute; repeat split; discriminate|].
       split; [constructor|]. split; [constructor|]. right. exists 39, [99]. split; [reflexivity|]. split; [tauto|repeat constructor; discriminate].
     + split; [|exact I]. split; [discriminate|]. split; [repeat constructor|]. split; [discriminate|]. repeat constructor; vm_compute; repeat split; discriminate.
+Qed.
+
+(* non-vacuity of the cut svg: <p><SVG a=QxQ> <!-- </svg> with Q a double quote and x = </svg> (the end of input
+   comes inside a comment; the first end tag is inside a quoted attribute value) *)
+Example html_wellformed_cut_foreign_nonvacuous :
+  let doc := [ ITag [112] [] [] false;
+               ICutForeign html_hash_Svg [83; 86; 71] [32; 97; 61; 34; 120; 60; 47; 115; 118; 103; 62; 34; 62; 32; 60; 33; 45; 45; 32; 60; 47; 115; 118; 103; 62] ] in
+  wf_doc doc /\ exists tr, run no_tmpl 4 (new_lexer (doc_bytes doc)) = Ok tr /\ map observe tr = doc_obs doc ++ [mkObs ErrorT [] [] []].
+Proof.
+  split; [|eexists; split; vm_compute; reflexivity]. cbn [wf_doc is_text is_plain].
+  split.
+  { cbn [wf_item]. split; [eexists _, _; split; reflexivity|]. split; [repeat constructor; vm_compute; repeat split; discriminate|].
+    split; [eexists; split; vm_compute; reflexivity|]. split; [constructor|exact I]. }
+  split; [discriminate|]. split; [discriminate|]. split; [|split; [discriminate|split; [reflexivity|exact I]]].
+  cbn [wf_item]. split; [eexists _, _; split; reflexivity|]. split; [repeat constructor; vm_compute; repeat split; discriminate|].
+  split; [vm_compute; reflexivity|]. split; [vm_compute; reflexivity|]. split; [right; eexists _, _; split; [reflexivity|left; reflexivity]|vm_compute; reflexivity].
 Qed.
